@@ -490,6 +490,9 @@ void HttpRequest::read()
 
 	_path = Url::decode(_res.substring(0, pathend));
 
+	if ((int)strlen(*_path) != _path.length()) // an encoded NUL would hide the rest of the path from the ".." removal: reject
+		_path = "";
+
 	if(_path.contains(".."))
 		_path = _path.replace("..", "");
 
